@@ -121,6 +121,7 @@ pub fn eval(toks: &[&str]) -> String {
                 hex(&hv::group_convert(&g))
             )
         }
+        ("fn", "serdezst") => serde_zst(toks[2], toks[3]),
         ("fn", "static_empty") => hex(&hv::static_empty()),
         ("fnrange", "c2b") => {
             // breakpoints of cap ↦ buckets over [lo, hi)
@@ -163,7 +164,80 @@ pub fn eval(toks: &[&str]) -> String {
     }
 }
 
+/// C20 on ZERO-SIZED elements: the real `Deserialize` impls of `HashSet<()>` / `HashMap<(), ()>` fed an
+/// empty stream whose size hint claims `hint` entries. Observation: capacity and block size reserved.
+fn serde_zst(kind: &str, hint: &str) -> String {
+    use serde::de::{self, Deserialize, DeserializeSeed, Deserializer, MapAccess, SeqAccess, Visitor};
+    type E = serde::de::value::Error;
+    struct Lying(Option<usize>);
+    impl<'de> SeqAccess<'de> for Lying {
+        type Error = E;
+        fn next_element_seed<T: DeserializeSeed<'de>>(&mut self, _seed: T) -> Result<Option<T::Value>, E> {
+            Ok(None)
+        }
+        fn size_hint(&self) -> Option<usize> {
+            self.0
+        }
+    }
+    impl<'de> MapAccess<'de> for Lying {
+        type Error = E;
+        fn next_key_seed<K: DeserializeSeed<'de>>(&mut self, _seed: K) -> Result<Option<K::Value>, E> {
+            Ok(None)
+        }
+        fn next_value_seed<V: DeserializeSeed<'de>>(&mut self, _seed: V) -> Result<V::Value, E> {
+            Err(de::Error::custom("no value"))
+        }
+        fn size_hint(&self) -> Option<usize> {
+            self.0
+        }
+    }
+    struct D(Option<usize>, bool);
+    impl<'de> Deserializer<'de> for D {
+        type Error = E;
+        fn deserialize_any<V: Visitor<'de>>(self, v: V) -> Result<V::Value, E> {
+            if self.1 {
+                v.visit_map(Lying(self.0))
+            } else {
+                v.visit_seq(Lying(self.0))
+            }
+        }
+        serde::forward_to_deserialize_any! {
+            bool i8 i16 i32 i64 i128 u8 u16 u32 u64 u128 f32 f64 char str string bytes byte_buf option unit
+            unit_struct newtype_struct seq tuple tuple_struct map struct enum identifier ignored_any
+        }
+    }
+    let h: Option<usize> = if hint == "-" { None } else { Some(hint.parse::<u128>().unwrap() as usize) };
+    type BH = std::hash::BuildHasherDefault<std::collections::hash_map::DefaultHasher>;
+    let (cap, bytes) = if kind == "map" {
+        let m = hashbrown::HashMap::<(), (), BH>::deserialize(D(h, true)).expect("deserialize");
+        (m.capacity(), m.allocation_size())
+    } else {
+        let m = hashbrown::HashSet::<(), BH>::deserialize(D(h, false)).expect("deserialize");
+        (m.capacity(), m.allocation_size())
+    };
+    let mut out = format!("cap={} bytes={}", cap, bytes);
+    // direct oracle (C20): whatever the stream claims, at most 8192 buckets are reserved up front
+    if cap > 7168 || bytes > 8192 + 64 {
+        out.push_str(&format!(
+            " ORACLE-CAP(a_claimed_length_of_{}_reserved_capacity_{}_/_{}_bytes_before_any_element_arrived)",
+            hint, cap, bytes
+        ));
+    }
+    out
+}
+
 const VALID: [u8; 7] = [0xFF, 0x80, 0x00, 0x01, 0x2a, 0x2b, 0x7f];
+
+/// Only the serde lines (tie of C20 for zero-sized element types).
+pub fn generate_serde() -> Vec<String> {
+    let mut v = Vec::new();
+    for kind in ["set", "map"] {
+        for h in ["-", "0", "1", "2", "3", "4", "5", "7", "8", "14", "15", "28", "29", "56", "57", "4095", "4096", "4097", "7168", "7169", "8192", "65536", "1048576", "16777216"] {
+            v.push(format!("fn serdezst {} {}", kind, h));
+        }
+    }
+    v
+}
 
 /// Boundary-dense pure-function inputs. Returns op lines.
 pub fn generate(seed: u64, thorough: bool) -> Vec<String> {
@@ -181,6 +255,12 @@ pub fn generate(seed: u64, thorough: bool) -> Vec<String> {
         v.push(format!("fnrange capcheck 1 {} {}", hi, size));
     }
     v.push("fnrange bm2c 64".into());
+    // serde on zero-sized elements: claimed lengths around `cautious`'s cap and far above it
+    for kind in ["set", "map"] {
+        for h in ["-", "0", "1", "3", "4", "7", "8", "28", "29", "4095", "4096", "4097", "7168", "7169", "65536", "1048576", "16777216"] {
+            v.push(format!("fn serdezst {} {}", kind, h));
+        }
+    }
     // around every 2^k and 7/8·2^k up to usize::MAX
     let delta: i128 = if thorough { 4096 } else { 64 };
     for k in 3..=64u32 {
